@@ -225,7 +225,7 @@ func (x *Exec) checkRun(rec *StepRecord) {
 		var cands []int
 		for _, pi := range rec.Local {
 			d := filepath.Clean(m.Pkgs[pi].Dir)
-			if filepath.Clean(filepath.Dir(f)) == d || strings.HasPrefix(f, d+"/") {
+			if d == "." || filepath.Clean(filepath.Dir(f)) == d || strings.HasPrefix(f, d+"/") {
 				cands = append(cands, pi)
 			}
 		}
